@@ -559,6 +559,31 @@ type c08World struct {
 
 var c08GR = schema.GroupResource{Group: "g", Resource: "r"}
 
+// c08APIErr: the failures of a Get or an Update other than not-found and conflict come in the kinds an API server answers with
+// (the kind changes from one injected failure to the next; the run is sequential, so it is reproducible).
+var c08ErrCount int
+
+func c08APIErr(what string) error {
+	c08ErrCount++
+	switch c08ErrCount % 8 {
+	case 1:
+		return apierrors.NewInternalError(errors.New(what))
+	case 2:
+		return apierrors.NewTimeoutError(what, 1)
+	case 3:
+		return apierrors.NewServerTimeout(c08GR, "update", 1)
+	case 4:
+		return apierrors.NewTooManyRequests(what, 1)
+	case 5:
+		return apierrors.NewForbidden(c08GR, "res", errors.New(what))
+	case 6:
+		return apierrors.NewServiceUnavailable(what)
+	case 7:
+		return context.DeadlineExceeded
+	}
+	return errors.New(what)
+}
+
 func (w *c08World) Get(_ context.Context, _ client.ObjectKey, obj client.Object, _ ...client.GetOption) error {
 	i := len(w.obs)
 	if i >= len(w.plan) {
@@ -567,7 +592,7 @@ func (w *c08World) Get(_ context.Context, _ client.ObjectKey, obj client.Object,
 	w.obs = append(w.obs, c08ObsRec{CRDOk: true})
 	switch w.plan[i].get {
 	case 1:
-		return errors.New("c08: injected get failure")
+		return c08APIErr("c08: injected get failure")
 	case 2:
 		return apierrors.NewNotFound(c08GR, "res")
 	}
@@ -593,7 +618,7 @@ func (w *c08World) Update(_ context.Context, obj client.Object, _ ...client.SubR
 	case 1:
 		return apierrors.NewConflict(c08GR, "res", errors.New("c08: injected conflict"))
 	case 2:
-		return errors.New("c08: injected update failure")
+		return c08APIErr("c08: injected update failure")
 	}
 	w.current = cp
 	return nil
@@ -967,7 +992,7 @@ func c08Probe(out *vu.Out, crds *c08CRDs) {
 	k8s := fake.NewClientBuilder().WithScheme(scheme).WithInterceptorFuncs(interceptor.Funcs{
 		Get: func(context.Context, client.WithWatch, client.ObjectKey, client.Object, ...client.GetOption) error {
 			gets++
-			return errors.New("c08: injected get failure")
+			return c08APIErr("c08: injected get failure")
 		},
 	}).Build()
 	s := &c08Spec{
